@@ -212,15 +212,20 @@ def cmp_value(got, exp, printed=False):
         got, exp.v, abs(got - exp.v) / max(abs(exp.v), 1e-300))
 
 
-def reference_runs(host, lines, nruns):
+_visited = set()             # line numbers executed by the last reference evaluation
+
+
+def reference_runs(host, lines, nruns, quirks=()):
     """Reference evaluation of the hosted program text, `nruns` consecutive runs sharing the PUT memory.
     -> (status, runs=[(values, save)], detail)"""
     mem = {}
     runs = []
+    _visited.clear()
     for _ in range(nruns):
-        st, it = B.run_program(lines, mem=mem, max_steps=20000, wide=True, time=1.0)
+        st, it = B.run_program(lines, mem=mem, max_steps=20000, wide=True, time=1.0, quirks=quirks)
         if st != "ok":
             return st, runs, it
+        _visited.update(it.visited)
         if host == "punch":
             vals = list(it.out_punch)
         elif host == "print":
@@ -250,9 +255,18 @@ def exec_kinds(host, lines, default):
     return ["s" if isinstance(v, str) else "n" for v in ref[0][0]]
 
 
-def judge(host, lines, kinds, res, problems, tag, stats, nruns=2, bad=None):
-    """Compare one hosted execution with the reference.  Returns the reference status."""
-    st, ref, detail = reference_runs(host, lines, nruns if host != "rates" else 1)
+def expected_runs(host, vals):
+    """Reference result of an *expression program* (part A / B) whose expressions have the reference values `vals`:
+    every run delivers exactly these values; the harness' SAVE statement delivers 0.125 + n / 4096 (x TIME = 1 s)."""
+    save = B.Num(0.125 + len(vals) / 4096.0) if host in ("calc", "rates") else None
+    return "ok", [(list(vals), save)] * (1 if host == "rates" else 2), None
+
+
+def judge(host, lines, kinds, res, problems, tag, stats, nruns=2, bad=None, ref=None, mutant=False):
+    """Compare one hosted execution with the reference (`ref`: precomputed reference, else the program text is
+    interpreted by the reference interpreter).  Returns the reference status."""
+    interpreted = ref is None
+    st, ref, detail = ref if ref is not None else reference_runs(host, lines, nruns if host != "rates" else 1)
     stats["ref_" + st] = stats.get("ref_" + st, 0) + 1
     if res.get("hang"):
         if st != "steplimit":
@@ -279,6 +293,13 @@ def judge(host, lines, kinds, res, problems, tag, stats, nruns=2, bad=None):
                                  detail, res["runs"][:1], tag, "\n".join(lines))))
         return st
     if failed:
+        if mutant and interpreted:
+            # a mutant may be malformed in a line that is never executed: whether such a line is diagnosed is not
+            # documented (the library finds some of them when it tokenises the program) - both outcomes are accepted
+            m = re.search(r"in BASIC line\s*\n\s*(\d+)", res["err"])
+            if m and int(m.group(1)) not in _visited:
+                stats["mut_error_in_unexecuted_line"] = stats.get("mut_error_in_unexecuted_line", 0) + 1
+                return st
         problems.append(("unexpected-error host=%s msg=%s" % (host, errmsg(res["err"])),
                          "valid program (reference values %r) but the run failed: %s (%s)\n%s" % (
                              [show(v) for v in ref[0][0]][:12], res["err"].strip()[:400], tag, "\n".join(lines))))
@@ -514,7 +535,7 @@ def lib_value(host, res, j):
         return None
 
 
-def find_failures(host, exprs, kinds, setup, stats, counter):
+def find_failures(host, exprs, kinds, setup, stats, counter, vals):
     """Bisecting search for the expressions that make a batch fail.  -> [(index, kind, explanation, library value)]"""
     out = []
     todo = [list(range(len(exprs)))]
@@ -527,7 +548,7 @@ def find_failures(host, exprs, kinds, setup, stats, counter):
         res = execute(host, lines, kd)
         counter[0] += 1
         pr, bad = [], []
-        judge(host, lines, kd, res, pr, "expressions", stats if first else {}, bad=bad)
+        judge(host, lines, kd, res, pr, "expressions", stats if first else {}, bad=bad, ref=expected_runs(host, [vals[i] for i in batch]))
         first = False
         if not pr:
             continue
@@ -547,7 +568,7 @@ def find_failures(host, exprs, kinds, setup, stats, counter):
     return out
 
 
-MOD_FP = "expr MOD adds 1e-14 to the dividend (a MOD b = remainder + 1e-14; exact multiples give 1e-14, not 0)"
+MOD_FP = "expr value op=MOD residue: a MOD b = sign(a) * fmod(|a| + 1e-14, b) (exact multiples give 1e-14, not 0)"
 
 
 def run_expr_case(case):
@@ -574,7 +595,7 @@ def run_expr_case(case):
     failing_punch = set()
     if good:
         for host in hosts_for(case["n"], tier, case["part"]):
-            fails = find_failures(host, good, kinds, setup, stats, counter)
+            fails = find_failures(host, good, kinds, setup, stats, counter, vals)
             outcome.append((host, len(fails)))
             nshrunk = 0
             for idx, kind, what, libval in fails:
@@ -586,21 +607,25 @@ def run_expr_case(case):
                 only = "" if host == "punch" else " only-host=%s" % host
                 # defect model: is the mismatch explained by the MOD residue alone?
                 if "MOD" in t:
+                    # defect model (naming only): is the mismatch exactly what MOD = sign(a) * fmod(|a| + 1e-14, b) gives?
                     stq, vq = refx(t, quirks=("mod_residue",))
-                    if kind == "value" and stq == "ok" and libval is not None and cmp_value(libval, vq) is None:
-                        problems.append((MOD_FP + only, "%s\nthe delivered value equals the reference with MOD computed as fmod(|a| + 1e-14, b)" % what))
+                    if (kind == "value" and stq == "ok" and isinstance(vq, B.Num) and isinstance(libval, float)
+                            and abs(libval - vq.v) <= 4 * TOL * abs(vq.v) + vq.u):
+                        problems.append((MOD_FP + only, "%s\nthe delivered value equals the reference with MOD computed as sign(a) * fmod(|a| + 1e-14, b)" % what))
                         continue
-                    if kind != "value" and stq != "ok":
-                        problems.append((MOD_FP + only, "%s\nwith MOD computed as fmod(|a| + 1e-14, b) the reference also rejects this expression (%s)" % (what, vq)))
+                    if stq == "unspecified":
+                        problems.append((MOD_FP + only, "%s\nwith MOD computed as sign(a) * fmod(|a| + 1e-14, b) the expression leaves the specified "
+                                         "domain (%s), e.g. 1 MOD 3 = 1.00000000000001 is not an integer exponent" % (what, vq)))
                         continue
                 if nshrunk >= 8:
-                    problems.append(("expr %s (not shrunk)%s" % (kind, only), what))
+                    # the first 8 failing expressions of this row and host have been minimised and named; the rest is counted
+                    stats["failing_not_minimised"] = stats.get("failing_not_minimised", 0) + 1
                     continue
                 nshrunk += 1
                 m = shrink_expr(host, t, None)
                 problems.append(("expr %s %s%s" % (kind, opkey(m), only), "minimal failing expression: %s   (found in: %s)\n%s" % (m, t, what)))
     return {"case": case, "problems": dedupe(problems), "ops": counter[0], "states": [], "n_states": len(good),
-            "outcome": core.sha(repr([show(v) for v in vals]) + repr(outcome)), "script": core.get_drv("rel").script(),
+            "outcome": core.sha(repr([show(v) for v in vals]) + repr(outcome)), "script": case_script(problems),
             "sample": {"case": case, "expressions": good[:3], "reference": [show(v) for v in vals[:3]]}, "stats": stats}
 
 
@@ -722,7 +747,7 @@ def run_illtyped_case(case):
         judge(host, lines, ["n"], res, problems, "ill-typed expression", stats)
         out.append((res.get("rc"), errmsg(res.get("err", "")) if res.get("rc") else ""))
     return {"case": case, "problems": dedupe(problems), "ops": ops, "states": [core.sha(case["text"])], "outcome": core.sha(repr(out)),
-            "script": core.get_drv("rel").script(), "not_completed": True, "stats": stats}
+            "script": case_script(problems), "not_completed": True, "stats": stats}
 
 
 # =================================================================================================== part C: control skeletons
@@ -942,6 +967,9 @@ def ctl_fingerprint(kind, host, forest, extra=""):
     return "ctl %s host=%s constructs=%s%s" % (kind, host, "+".join(sorted(set(re.sub(r"\d+$|_[tf]$|_.*$", "", n) for n in forest_names(forest)))), extra)
 
 
+ONGOSUB_FP = "ctl ON..GOSUB with a selector outside 1..n leaves a GOSUB frame on the control stack"
+
+
 def run_ctl_case(case):
     forest = forest_list(case["size"])[case["k"]]
     problems, stats, outcome = [], {}, []
@@ -954,8 +982,23 @@ def run_ctl_case(case):
         ops += 1
         pr = []
         st = judge(host, lines, kinds, res, pr, "skeleton %s" % "+".join(forest_names(forest)), stats)
-        if st != "ok":
-            raise RuntimeError("part C generated a program the reference rejects (%s): %s\n%s" % (st, forest, "\n".join(lines)))
+        if st not in ("ok", "error", "unspecified"):
+            raise RuntimeError("part C generated a program the reference cannot run (%s): %s\n%s" % (st, forest, "\n".join(lines)))
+        if pr and any(n.startswith("ongosub") for n in forest_names(forest)):
+            # defect model (naming only): does the library behave exactly like the reference with the GOSUB frame pushed
+            # before the range check of the selector?
+            prq = []
+            refq = reference_runs(host, lines, 1 if host == "rates" else 2, quirks=("on_gosub_frame",))
+            resq, kindsq = res, kinds
+            if host in ("calc", "rates") and refq[0] == "ok":
+                # the slot reader of these hosts is generated from the expected number / kinds of values
+                kindsq = ["s" if isinstance(v, str) else "n" for v in refq[1][0][0]]
+                resq = execute(host, lines, kindsq)
+                ops += 1
+            judge(host, lines, kindsq, resq, prq, "", {}, ref=refq)
+            if not prq:
+                problems.append((ONGOSUB_FP, pr[0][1] + "\nthe library's result equals the reference with that frame left on the stack"))
+                pr = []
         for fp, what in pr:
             kind = fp.split(" host=")[0]
             extra = (" " + fp.split(" ", 2)[2]) if fp.startswith("unexpected-error") else ""
@@ -964,7 +1007,7 @@ def run_ctl_case(case):
         if host == "punch":
             sample = {"case": case, "program": lines, "delivered": res.get("runs", [])[:1]}
     return {"case": case, "problems": dedupe(problems), "ops": ops, "states": [core.sha(repr(forest))], "outcome": core.sha(repr(outcome)),
-            "script": core.get_drv("rel").script(), "sample": sample, "stats": stats}
+            "script": case_script(problems), "sample": sample, "stats": stats}
 
 
 # =================================================================================================== part D: malformed programs
@@ -1019,22 +1062,27 @@ def run_mut_case(case):
         res = execute("punch", ml, kinds, variant)
         ops += 1
         pr = []
-        judge("punch", ml, kinds, res, pr, "mutant %s of token %d in line %s of skeleton %s" % (kind, j, ml[li].split(" ")[0], "+".join(forest_names(forest))), stats)
+        judge("punch", ml, kinds, res, pr, "mutant %s of token %d in line %s of skeleton %s" % (kind, j, ml[li].split(" ")[0], "+".join(forest_names(forest))), stats, mutant=True)
+        if pr and re.search(r"\bON\b.*\bGOSUB\b", "\n".join(ml)):
+            prq = []
+            judge("punch", ml, kinds, res, prq, "", {}, ref=reference_runs("punch", ml, 2, quirks=("on_gosub_frame",)))
+            if not prq:
+                problems.append((ONGOSUB_FP, pr[0][1] + "\nthe library's result equals the reference with that frame left on the stack"))
+                pr = []
         stats["mut_" + st0] = stats.get("mut_" + st0, 0) + 1
         if res.get("rc") == 0:
             ncompleted += 1
         for fp, what in pr:
             base = fp.split(" host=")[0]
             if base == "malformed-accepted":
-                stmt = stmt_of(ml[li], detail)
-                problems.append(("mut malformed-accepted stmt=%s ref=%s" % (stmt, errclass(detail)), what))
+                problems.append(("mut malformed-accepted ref=%s" % errclass(detail), what))
             elif base == "unexpected-error":
                 problems.append(("mut unexpected-error stmt=%s msg=%s" % (stmt_of(ml[li], ""), errmsg(res["err"])), what))
             else:
                 problems.append(("mut %s stmt=%s%s" % (base, stmt_of(ml[li], ""), " variant=san" if variant == "san" else ""), what))
         outcomes.append((res.get("rc"), errmsg(res.get("err", "")) if res.get("rc") else "ok"))
     return {"case": case, "problems": dedupe(problems), "ops": ops, "states": [core.sha(repr((forest, variant)))],
-            "outcome": core.sha(repr(outcomes)), "outcomes": sorted(set(o[1] for o in outcomes)), "script": core.get_drv(variant).script(),
+            "outcome": core.sha(repr(outcomes)), "outcomes": sorted(set(o[1] for o in outcomes)), "script": case_script(problems, variant),
             "stats": stats, "n_mut": len(outcomes), "n_completed": ncompleted}
 
 
@@ -1046,6 +1094,7 @@ def stmt_of(line, detail):
 
 # =================================================================================================== dispatch
 def run_case(case):
+    begin_case()
     p = case["part"]
     if p in ("A1", "A2", "A3", "B"):
         return run_expr_case(case)
@@ -1097,11 +1146,17 @@ def run(tier):
         "mini database data/c17/mini.dat (water only) loads without error; LoadDatabaseString returns the instance to the fresh state",
     ]
     totals = {}
+    drv.exe("rel")               # (re)build the library and the driver before the deadline clock starts
     real_pool = core.Pool()
     pool = TapPool(real_pool, ev, totals)
     dl = core.Deadline(170 if tier == "quick" else 1700)
 
+    only = os.environ.get("C17_PARTS")          # development aid: run only the bounds whose name starts with one of these letters
+
     def bound(name, cases, chunksize=2):
+        if only and name[0] not in only:
+            ev.bound(name, False, cases=len(cases), skipped="C17_PARTS")
+            return
         for i, c in enumerate(cases):
             c["tier"] = tier
             c.setdefault("n", i)
@@ -1138,10 +1193,11 @@ def run(tier):
     ev.extra["lattice"] = dict(sorted(totals.items()))
     ev.not_completed = totals.get("ref_unspecified", 0) + totals.get("ref_steplimit", 0) + totals.get("mut_unspecified", 0) + totals.get("mut_steplimit", 0)
     n_judged = totals.get("judged", 0)
-    if n_judged < 1000:
-        raise SystemExit("C17: only %d values were judged - the check is broken" % n_judged)
-    if len(ev.outcomes) < 50:
-        raise SystemExit("C17: only %d distinct outcomes - the check is vacuous" % len(ev.outcomes))
+    if ev.exhaustive:            # vacuity guards (a deadline-cut run is reported as such, not as a broken check)
+        if n_judged < 1000:
+            raise SystemExit("C17: only %d values were judged - the check is broken" % n_judged)
+        if len(ev.outcomes) < 50:
+            raise SystemExit("C17: only %d distinct outcomes - the check is vacuous" % len(ev.outcomes))
     real_pool.close()
     return core.finish(ev, findings)
 
